@@ -22,9 +22,16 @@ for n in names:
 out += ["", "## Matrix (rows: changes, columns: checks; V = violation with a failing input, N = no-failing-input-found, . = quiet)", "",
         "| change | " + " | ".join(c[1:] for c in checks) + " |", "|---|" + "---|" * len(checks)]
 for n in names:
-    row = mx.get(n, {})
+    row = dict(mx.get(n, {}))
+    # cells known from the runs recorded in meta.json (the property's own check, and others that were tried)
+    m = json.load(open(os.path.join(S, n, "meta.json")))
+    for c, r in m.get("checks", {}).items():
+        if c in checks and c not in row:
+            line = r.get("line") or ""
+            row[c] = "." if r.get("rc") == 0 else ("N" if "no-failing-input-found" in line else "V")
     out.append("| %s | " % n + " | ".join(row.get(c, " ") for c in checks) + " |")
-out += ["", "Rows of the first round were produced before C08/C09/C15/C19/C20 were part of the matrix run (blank cells).",
+out += ["", "Rows of the first two rounds come from the full cross runs (seeded/MATRIX.json; the first round before C08/C09/C15/C19/C20 were part",
+        "of it); for the later rounds only the checks that were actually run against a change are filled in (blank = not run).",
         "An alarm outside the diagonal is either a genuine violation of that property's text as well (cascades, DESIGN §6)",
         "or `N`: a tie that the change breaks although the property holds (DESIGN §6 lists the ones that were removed)."]
 open(S + "/README.md", "w").write("\n".join(out) + "\n")
